@@ -5,7 +5,8 @@ CFG = cfg('C03', extract='Ex_C03', driver='c03',
                'encrypt_sk m with a stub key; decrypt_sk on chosen m (good / bad checksum / short / long / invalid algorithm); RSA left padding; '
                'the SEIPD gate on chosen plaintexts under every available cipher (valid, MDC damaged, repeat damaged, short, MDC over the wrong range); '
                'SEIPD encrypt with pinned prefix vs model vs RFC 5.13 transcription; PKCS#5 every length 0..48 + damaged paddings vs the library PGPy calls; '
-               'RFC 6637 parameter block and KDF for every ECDH key vs ECKDF.derive_key; S2K oracle vs String2Key.derive_key. '
+               'RFC 6637 parameter block and KDF for every ECDH key vs ECKDF.derive_key; S2K oracle vs String2Key.derive_key; ephemeral point of every ECDH PKESK in the '
+               'fixed-width RFC 6637 encoding (8/60 draws for P-521, 2/12 for the other curves) + independent decryptor + own re-parse; session keys of the wrong length. '
                'message level: (a) independent decryptor: PGPy encrypts (9 ciphers x {rsa2048 subkey, rsa3072 primary, Curve25519 x2, P-256, P-384, P-521, secp256k1} x '
                'passphrases over 7 S2K hashes x 1..3 mixed recipients x bodies empty/text/unicode/binary/large/incompressible x 4 compressions x '
                'supplied/generated session key x signed x armored) -> the extracted model parses and decrypts through hashlib/cryptography -> plaintext packets '
